@@ -371,13 +371,13 @@ theorem nextHeader_progress {data k v rest : Bytes} (h : nextHeader data = .ok (
         simp only [List.length_drop] at *
         omega
 
-theorem commitStream_no_panic : ∀ (fuel : Nat) (data : Bytes) (ps : List Bytes) (t : Option Bytes),
-    (commitStream fuel data ps t).isPanic = false := by
+theorem commitStream_no_panic : ∀ (fuel : Nat) (data : Bytes) (done : Bool) (ps : List Bytes) (t : Option Bytes),
+    (commitStream fuel data done ps t).isPanic = false := by
   intro fuel
   induction fuel with
   | zero => intros; rfl
   | succ n ih =>
-    intro data ps t
+    intro data done ps t
     unfold commitStream
     split
     · rfl
@@ -389,24 +389,26 @@ theorem commitStream_no_panic : ∀ (fuel : Nat) (data : Bytes) (ps : List Bytes
         obtain ⟨k, v, rest⟩ := r
         simp only
         split
-        · split
-          · rfl
-          · exact ih _ _ _
+        · exact ih _ _ _ _
         · split
           · split
             · rfl
+            · exact ih _ _ _ _
+          · split
             · split
               · rfl
-              · exact ih _ _ _
-          · exact ih _ _ _
+              · split
+                · rfl
+                · exact ih _ _ _ _
+            · exact ih _ _ _ _
 
-theorem tagStream_no_panic : ∀ (fuel : Nat) (data : Bytes) (o t : Option Bytes),
-    (tagStream fuel data o t).isPanic = false := by
+theorem tagStream_no_panic : ∀ (fuel : Nat) (data : Bytes) (done : Bool) (o t : Option Bytes),
+    (tagStream fuel data done o t).isPanic = false := by
   intro fuel
   induction fuel with
   | zero => intros; rfl
   | succ n ih =>
-    intro data o t
+    intro data done o t
     unfold tagStream
     split
     · rfl
@@ -418,16 +420,18 @@ theorem tagStream_no_panic : ∀ (fuel : Nat) (data : Bytes) (o t : Option Bytes
         obtain ⟨k, v, rest⟩ := r
         simp only
         split
-        · split
-          · rfl
-          · split
-            · rfl
-            · exact ih _ _ _
+        · exact ih _ _ _ _
         · split
           · split
             · rfl
-            · exact ih _ _ _
-          · exact ih _ _ _
+            · split
+              · rfl
+              · exact ih _ _ _ _
+          · split
+            · split
+              · rfl
+              · exact ih _ _ _ _
+            · exact ih _ _ _ _
 
 theorem parseCommit_no_panic (data : Bytes) : (parseCommit data).isPanic = false := by
   unfold parseCommit
@@ -437,8 +441,8 @@ theorem parseCommit_no_panic (data : Bytes) : (parseCommit data).isPanic = false
   | panic c => simp [hb, Res.isPanic] at h1
   | ok block =>
     simp only [bind, Res.bind]
-    have h2 := commitStream_no_panic (block.length + 1) block [] none
-    cases hs : commitStream (block.length + 1) block [] none with
+    have h2 := commitStream_no_panic (block.length + 1) block false [] none
+    cases hs : commitStream (block.length + 1) block false [] none with
     | err c => rfl
     | panic c => simp [hs, Res.isPanic] at h2
     | ok r => obtain ⟨ps, t⟩ := r; cases t <;> rfl
@@ -451,8 +455,8 @@ theorem parseTag_no_panic (data : Bytes) : (parseTag data).isPanic = false := by
   | panic c => simp [hb, Res.isPanic] at h1
   | ok block =>
     simp only [bind, Res.bind]
-    have h2 := tagStream_no_panic (block.length + 1) block none none
-    cases hs : tagStream (block.length + 1) block none none with
+    have h2 := tagStream_no_panic (block.length + 1) block false none none
+    cases hs : tagStream (block.length + 1) block false none none with
     | err c => rfl
     | panic c => simp [hs, Res.isPanic] at h2
     | ok r => obtain ⟨o, t⟩ := r; cases o <;> cases t <;> rfl
